@@ -51,8 +51,8 @@ def verify(name):
     try:
         cmd = meta.get("demo_cmd", "")
         # normalise paths used by the sub-agent
-        cmd = re.sub(r"/tmp/seed2?-%s\b" % pid, wt, cmd)
-        cmd = re.sub(r"/tmp/seed2?-out/%s" % name, d, cmd)
+        cmd = re.sub(r"/tmp/seed[0-9]?-%s\b" % pid, wt, cmd)
+        cmd = re.sub(r"/tmp/seed[0-9]?-out/%s" % name, d, cmd)
         cmd = cmd.replace("<worktree>", wt).replace("<repo>", wt)
         # place demo files when the command does not copy them itself
         for f in os.listdir(d):
